@@ -144,6 +144,14 @@ byte viol = 0;
 #endif
 #define G3 (nreq <= FULLREQ)   /* requests after the FULLREQ-th are control requests (no daemon-side events) */
 
+/* gen_ebuild_env + inherit makes pkgcore add a QA notice line to the captured stderr, which only
+ * changes how many stale lines a failing run leaves; enumerated sessions inherit in gen_metadata only */
+#ifdef OBS
+#define INH_OK true
+#else
+#define INH_OK (mcmd == GENMETA)
+#endif
+
 #ifdef ENUM
 #define HMAX 14
 byte h[HMAX];
@@ -593,7 +601,7 @@ end_idle:	if
 			/* error_output=$(__ebd_process_metadata ... 2>&1 1>/dev/null) */
 			sub_fail = 0; sub_died = 0; nev = 0;
 			do
-			:: nev == 0 -> HREC(E_INHERIT); printf("DEV %d inherit\n", cur); nev++;
+			:: nev == 0 && INH_OK -> HREC(E_INHERIT); printf("DEV %d inherit\n", cur); nev++;
 				d_inherit();
 				if
 				:: sub_died -> sub_fail = 1; break
